@@ -40,7 +40,9 @@ Definition times_fully_enclosed (tr : trange) (low high : Z) : bool :=
 (* ---------- expressions ---------- *)
 Inductive atom :=
 | ACmp (f : N) (o : cop) (l : literal) (ci : bool)   (* field op literal *)
-| ATerm (w : bytes) (neg : bool).                    (* free-text word or phrase (any text column); neg = NegateMatch *)
+| ATerm (w : bytes) (neg : bool)                     (* free-text word or phrase (any text column); neg = NegateMatch *)
+| AAny (o : cop) (l : literal).                      (* all-column comparison: free-text NUMBER `404` = `*=404`, `*<5`, ...
+                                                        (SearchType SimpleExpressionAllColumns) *)
 
 Inductive expr :=
 | EAtom (a : atom)
@@ -72,6 +74,7 @@ Definition spec_atom (a : atom) (ev : event) : bool :=
   match a with
   | ACmp f o l ci => spec_cmp ci o (field f ev) l
   | ATerm w neg => xorb neg (text_fields_any (word_occurs true w) ev)
+  | AAny o l => existsb (fun kv => spec_cmp true o (snd kv) l) (ev_fields ev)   (* some field of the event satisfies it *)
   end.
 
 Fixpoint spec_eval (e : expr) (ev : event) : bool :=
@@ -94,6 +97,7 @@ Definition neg_atom (a : atom) : atom :=
   match a with
   | ACmp f o l ci => ACmp f (flip o) l ci
   | ATerm w neg => ATerm w (negb neg)
+  | AAny o l => AAny (flip o) l          (* the terminal's operator is flipped whatever the field name is *)
   end.
 
 (* NOT-free expressions as the parser hands them to the search *)
@@ -108,20 +112,30 @@ Fixpoint push_not (neg : bool) (e : expr) : pexpr :=
   end.
 
 (* one leaf query on one record: ApplyColumnarSearchQuery (MatchWordsAllColumns tries every
-   string column with IsSubWordPresent; NegateMatch inverts) *)
-Definition impl_atom (a : atom) (ev : event) : bool :=
+   string column with IsSubWordPresent; NegateMatch inverts).
+   SimpleExpressionAllColumns reads only the columns the block plan lists for the block
+   (filterRecordsFromSearchQuery: searchReq.CmiPassedCnames[blockNum]); [cs] is that list,
+   None = no restriction (every column of the record). *)
+Definition colsel := option (list N).
+Definition col_in (cs : colsel) (k : N) : bool :=
+  match cs with None => true | Some l => existsb (N.eqb k) l end.
+
+Definition impl_atom_in (cs : colsel) (a : atom) (ev : event) : bool :=
   match a with
   | ACmp f o l ci => impl_cmp ci o (field f ev) l
   | ATerm w neg => xorb neg (text_fields_any (fun s => is_subword true s w) ev)
+  | AAny o l => existsb (fun kv => col_in cs (fst kv) && impl_cmp true o (snd kv) l) (ev_fields ev)
   end.
+Definition impl_atom : atom -> event -> bool := impl_atom_in None.
 
 (* record-level evaluation of a NOT-free expression *)
-Fixpoint peval (e : pexpr) (ev : event) : bool :=
+Fixpoint peval_in (cs : colsel) (e : pexpr) (ev : event) : bool :=
   match e with
-  | PAtom a => impl_atom a ev
-  | PAnd a b => peval a ev && peval b ev
-  | POr a b => peval a ev || peval b ev
+  | PAtom a => impl_atom_in cs a ev
+  | PAnd a b => peval_in cs a ev && peval_in cs b ev
+  | POr a b => peval_in cs a ev || peval_in cs b ev
   end.
+Definition peval : pexpr -> event -> bool := peval_in None.
 
 (* --- the block search state machine, on a bit vector aligned with the record list --- *)
 Definition bits := list bool.
@@ -134,12 +148,12 @@ Definition all_set (evs : list event) : bits := map (fun _ => true) evs.
 
 (* RawSearchSingleQuery with op = And (also the first search of an Or condition): only records whose bit is set are
    processed; a record outside the time range is unset; updateMatchedRecords intersects *)
-Definition query_and (tr : trange) (a : atom) (evs : list event) (cur : bits) : bits :=
-  map2 (fun ev c => c && (check_in_range tr (ev_ts ev) && impl_atom a ev)) evs cur.
+Definition query_and_in (cs : colsel) (tr : trange) (a : atom) (evs : list event) (cur : bits) : bits :=
+  map2 (fun ev c => c && (check_in_range tr (ev_ts ev) && impl_atom_in cs a ev)) evs cur.
 
 (* op = Or, not the first search: only records whose bit is clear are processed; matches are united *)
-Definition query_or (tr : trange) (a : atom) (evs : list event) (cur : bits) : bits :=
-  map2 (fun ev c => c || (negb c && (check_in_range tr (ev_ts ev) && impl_atom a ev))) evs cur.
+Definition query_or_in (cs : colsel) (tr : trange) (a : atom) (evs : list event) (cur : bits) : bits :=
+  map2 (fun ev c => c || (negb c && (check_in_range tr (ev_ts ev) && impl_atom_in cs a ev))) evs cur.
 
 Definition is_atom (e : pexpr) : bool := match e with PAtom _ => true | _ => false end.
 
@@ -147,29 +161,32 @@ Definition is_atom (e : pexpr) : bool := match e with PAtom _ => true | _ => fal
    PAtom a   -> AndFilterCondition = { queries [a] }
    PAnd l r  -> AndFilterCondition = { nested nodes: the non-leaf children, queries: the leaf children }
    POr  l r  -> OrFilterCondition  = { nested ..., queries ... }
-   applyRawSearchToConditions runs the nested nodes first, then the queries. *)
-Fixpoint exec (tr : trange) (e : pexpr) (evs : list event) : bits :=
+   applyRawSearchToConditions runs the nested nodes first, then the queries.
+   [cs] = the block's candidate columns (one list per block for the whole expression). *)
+Fixpoint exec_in (cs : colsel) (tr : trange) (e : pexpr) (evs : list event) : bits :=
   match e with
-  | PAtom a => query_and tr a evs (all_set evs)
+  | PAtom a => query_and_in cs tr a evs (all_set evs)
   | PAnd l r =>
       let s0 := all_set evs in
-      let s1 := if is_atom l then s0 else map2 andb s0 (exec tr l evs) in
-      let s2 := if is_atom r then s1 else map2 andb s1 (exec tr r evs) in
-      let s3 := match l with PAtom a => query_and tr a evs s2 | _ => s2 end in
-      match r with PAtom a => query_and tr a evs s3 | _ => s3 end
+      let s1 := if is_atom l then s0 else map2 andb s0 (exec_in cs tr l evs) in
+      let s2 := if is_atom r then s1 else map2 andb s1 (exec_in cs tr r evs) in
+      let s3 := match l with PAtom a => query_and_in cs tr a evs s2 | _ => s2 end in
+      match r with PAtom a => query_and_in cs tr a evs s3 | _ => s3 end
   | POr l r =>
       (* (state, firstSearch) *)
       let st0 := (all_set evs, true) in
       let merge (st : bits * bool) (x : bits) :=
         (if snd st then map2 andb (fst st) x else map2 orb (fst st) x, false) in
       let query (st : bits * bool) (a : atom) :=
-        (if snd st then query_and tr a evs (fst st) else query_or tr a evs (fst st), false) in
-      let st1 := if is_atom l then st0 else merge st0 (exec tr l evs) in
-      let st2 := if is_atom r then st1 else merge st1 (exec tr r evs) in
+        (if snd st then query_and_in cs tr a evs (fst st) else query_or_in cs tr a evs (fst st), false) in
+      let st1 := if is_atom l then st0 else merge st0 (exec_in cs tr l evs) in
+      let st2 := if is_atom r then st1 else merge st1 (exec_in cs tr r evs) in
       let st3 := match l with PAtom a => query st2 a | _ => st2 end in
       let st4 := match r with PAtom a => query st3 a | _ => st3 end in
       fst st4
   end.
+(* the search of a record list with every column available (one block whose plan lists every column) *)
+Definition exec : trange -> pexpr -> list event -> bits := exec_in None.
 
 Fixpoint pick {A} (xs : list A) (b : bits) : list A :=
   match xs, b with
@@ -188,6 +205,10 @@ Definition atom_guard (neg : bool) (a : atom) (ev : event) : bool :=
   | ACmp f o l ci =>
       cmp_guard (if neg then flip o else o) (field f ev) l && (negb neg || comparable o (field f ev) l)
   | ATerm _ _ => true
+  | AAny o l =>
+      (* "some field satisfies it": exact when every field is inside cmp_guard; under a NOT the flipped
+         operator is again evaluated as "some field ...", which is not the complement *)
+      negb neg && forallb (fun kv => cmp_guard o (snd kv) l) (ev_fields ev)
   end.
 
 Fixpoint expr_guard (neg : bool) (e : expr) (ev : event) : bool :=
@@ -199,7 +220,7 @@ Fixpoint expr_guard (neg : bool) (e : expr) (ev : event) : bool :=
 
 (* well-formedness: what the encodings / the literal parser can produce *)
 Definition ev_wf (ev : event) : bool := forallb (fun kv => stored_wf (snd kv)) (ev_fields ev).
-Definition atom_wf (a : atom) : bool := match a with ACmp _ _ l _ => lit_wf l | ATerm _ _ => true end.
+Definition atom_wf (a : atom) : bool := match a with ACmp _ _ l _ | AAny _ l => lit_wf l | ATerm _ _ => true end.
 Fixpoint expr_wf (e : expr) : bool :=
   match e with
   | EAtom a => atom_wf a
